@@ -776,7 +776,10 @@ package proxy
 //@ ghost StreamForwarder.fwdAcks int
 //@ ghost StreamForwarder.cancelled bool
 //@ ghost sync.WaitGroup.dones int
-//@ extern (*sync.WaitGroup).Done(w)
+//@ extern (*sync.WaitGroup).Done@(*StreamForwarder).forwardReplicationMessages(w)
+//@   ensures w.dones == old(w.dones) + 1
+//@   assigns w.dones
+//@ extern (*sync.WaitGroup).Done@(*StreamForwarder).forwardAcks(w)
 //@   ensures w.dones == old(w.dones) + 1
 //@   assigns w.dones
 // A-wire: what a gRPC stream hands to the relay was decoded from the wire: a set oneof branch has a payload and
